@@ -73,8 +73,13 @@ def sync_obligation(ctx, R, prover, U):
 
     def s_list(ex_, st, args, dest_ty, func, where):
         okl = ex_.fresh_bool("list_ok")
+        n_before = len([e for e in other if e["call"] == "list"])
         rec(other, st, call="list", ok=okl)
-        return fsmodels.io_result(ex_, okl, hub_map)
+        if n_before == 0:
+            return fsmodels.io_result(ex_, okl, hub_map)
+        # a LATER listing is whatever the hub holds by then (other clients may have committed): unrelated to the first one
+        later = stdmodels.mk_map([VStruct("entry", [VBool(ex_.fresh_bool("hub_later_has%d" % u)), sym_fp(ex_, "hublater%d_%d" % (n_before, u), ctx.enums)[0]]) for u in range(U)])
+        return fsmodels.io_result(ex_, okl, later)
 
     def s_scan(ex_, st, args, dest_ty, func, where):
         return VEnum("Result", I(0), {0: [loc_map]})
@@ -142,6 +147,11 @@ def sync_obligation(ctx, R, prover, U):
         "exit-0-exactly-when-the-run-completed-and-every-Put-committed": ok == z3.And(
             _any(z3.And(e["guard"]) for e in other if e["call"] == "bye"), _all(z3.Implies(p["guard"], z3.And(p["ok"], p["committed"])) for p in puts)),
         "nothing-but-connect,-list,-put-and-bye-is-requested-of-the-hub": z3.BoolVal(all(e["call"] in ("connect", "list", "bye") for e in other)),
+        # the compare-and-swap protects what OTHER clients committed only if `expected` is what this client saw BEFORE it decided:
+        # one listing, taken before the first Put (a fresh listing mid-run would turn a lost race into an overwrite)
+        "the-hub-is-listed-once,-before-the-first-Put": z3.And(
+            _all(z3.Not(z3.And(a["guard"], b["guard"])) for i, a in enumerate([e for e in other if e["call"] == "list"]) for b in [e for e in other if e["call"] == "list"][i + 1:]),
+            _all(z3.Implies(z3.And(l_["guard"], p["guard"]), z3.BoolVal(l_["seq"] < p["seq"])) for l_ in other if l_["call"] == "list" for p in puts)),
     }
     covers = {"put-reachable": _any(p["guard"] for p in puts), "skip-reachable": z3.And(ok, _any(z3.And(loc_p[u], z3.Not(need(u))) for u in range(U)))}
 
@@ -159,6 +169,10 @@ def sync_obligation(ctx, R, prover, U):
                 files["p%d" % u] = data("l", u)
             if model_bool(model, hub_p[u]):
                 hubfiles["p%d" % u] = data("h", u)
+        if name.startswith("the-hub-is-listed-once") or "LISTED-hash" in name:
+            t = stale_listing_witness(R)
+            if t["confirmed"]:
+                return t
         return conformance(R, [{"fn": "hub_sync", "local": files, "hub": hubfiles}], "C13/hub_sync", "C13/hub_sync/%s" % name[:50])
     prover.prove(ex, goals, "C13/hub_sync",
                  "universe of %d ordered paths; the hub's listing and the local scan symbolic (presence + full 32-byte digests); connect/list/put may fail, a Put may lose its CAS" % U,
@@ -348,6 +362,109 @@ def judge(case, r):
     return None
 
 
+PROXY = """#!/usr/bin/env python3
+# stand-in for `ssh -T host copia serve ROOT`: runs the REAL `copia serve ROOT`, lets the client's Hello and List through, then lets a
+# SECOND REAL CLIENT commit (`copia hub-sync B ROOT`) before the first client's Puts reach the hub - a stale listing, deterministically
+import os, struct, subprocess, sys, threading
+copia, blocal = %r, %r
+root = sys.argv[-1]
+srv = subprocess.Popen([copia, "serve", root], stdin=subprocess.PIPE, stdout=subprocess.PIPE)
+inp, out = sys.stdin.buffer, sys.stdout.buffer
+def rd(f, n):
+    b = b""
+    while len(b) < n:
+        c = f.read(n - len(b))
+        if not c:
+            break
+        b += c
+    return b
+def frame(src, dst):
+    h = rd(src, 4)
+    b = rd(src, struct.unpack(">I", h)[0]) if len(h) == 4 else b""
+    dst.write(h + b); dst.flush()
+srv.stdin.write(rd(inp, 6)); srv.stdin.flush()
+for _ in range(2):
+    frame(inp, srv.stdin)
+    frame(srv.stdout, out)
+subprocess.run([copia, "hub-sync", blocal, root], stdin=subprocess.DEVNULL, stdout=subprocess.DEVNULL, stderr=subprocess.DEVNULL)
+def pump(a, b):
+    while True:
+        c = a.read1(65536) if hasattr(a, "read1") else a.read(65536)
+        if not c:
+            break
+        b.write(c); b.flush()
+    try:
+        b.close()
+    except Exception:
+        pass
+# like ssh, the stand-in ends when the remote command ends (the client keeps its end of the pipe open while it waits for us)
+threading.Thread(target=pump, args=(inp, srv.stdin), daemon=True).start()
+pump(srv.stdout, out)
+os._exit(srv.wait())
+"""
+
+
+def stale_listing_case(profile):
+    """two REAL clients, one REAL hub: A lists; B commits a.txt and b.txt; A's Puts arrive with the stale listing.  Both must lose
+    their compare-and-swap: the hub keeps B's bytes, A's bytes end up in conflict copies, A exits non-zero"""
+    import shutil, tempfile, os, subprocess
+    from . import c04
+    exe = c04.build_copia(profile)
+    base = tempfile.mkdtemp(prefix="copia-verif-c13s-")
+    try:
+        hub, a, b, home, bindir, seed = (os.path.join(base, x) for x in ("hub", "A", "B", "home", "bin", "seed"))
+        for x in (hub, a, b, home, bindir, seed):
+            os.makedirs(x)
+        for d_, tag in ((seed, "v0"), (a, "from-A"), (b, "from-B")):
+            for f in ("a.txt", "b.txt"):
+                open(os.path.join(d_, f), "w").write("%s %s" % (f, tag))
+        open(os.path.join(seed, "keep.txt"), "w").write("keep")
+        envp = dict(os.environ, HOME=home)
+        if subprocess.run([exe, "hub-sync", seed, hub], stdout=subprocess.PIPE, stderr=subprocess.PIPE, env=envp).returncode != 0:
+            return {"setup_failed": True}
+        with open(os.path.join(bindir, "ssh"), "w") as f:
+            f.write(PROXY % (exe, b))
+        os.chmod(os.path.join(bindir, "ssh"), 0o755)
+        envp["PATH"] = bindir + ":" + envp["PATH"]
+        p = subprocess.run([exe, "hub-sync", a, "fakehost:" + hub], stdout=subprocess.PIPE, stderr=subprocess.PIPE, env=envp, timeout=120, text=True)
+        tree = {}
+        for dd, dn, fs in os.walk(hub):
+            if ".copia" in dd:
+                continue
+            for f in fs:
+                tree[os.path.relpath(os.path.join(dd, f), hub)] = open(os.path.join(dd, f)).read()
+        return {"rc": p.returncode, "hub": tree, "said": (p.stdout + p.stderr)[-200:]}
+    finally:
+        shutil.rmtree(base, ignore_errors=True)
+
+
+def judge_stale(r):
+    if r.get("setup_failed"):
+        return None
+    h = r["hub"]
+    for f in ("a.txt", "b.txt"):
+        if h.get(f) != "%s from-B" % f:
+            return "%s on the hub holds %r: what client B committed after A's listing was overwritten (A never saw it)" % (f, h.get(f))
+        if not any(k.startswith(f + ".conflict-") and v == "%s from-A" % f for k, v in h.items()):
+            return "A's version of %s is not retrievable from a conflict copy" % f
+    if h.get("keep.txt") != "keep":
+        return "an unrelated hub file changed"
+    if r["rc"] == 0:
+        return "exit 0 although the hub changed underneath the run"
+    return None
+
+
+def stale_listing_witness(R):
+    for prof in ("dev", "release"):
+        r = stale_listing_case(prof)
+        why = judge_stale(r)
+        if why:
+            case = {"fn": "hub_sync_stale_listing", "observed": {prof: r}}
+            return {"confirmed": True, "replay_path": R.save_replay("C13/stale-listing", case), "key": "C13/hub_sync/stale-listing",
+                    "detail": "two real clients (B commits between A's List and A's Puts; %s): %s" % (prof, why)}
+    return {"confirmed": False, "detail": "with B committing between A's List and A's Puts, both of A's Puts lose their compare-and-swap: B's bytes stay, A's are in conflict copies, A exits non-zero"}
+
+
 def run(R, tier, seed):
     R.trusted += ["rustc nightly MIR dump of the copia binary crate", "mirsmt encoder + std models (BTreeMap over an ordered path universe, iteration in key order)",
                   "z3 5.1 (deciding), cvc5 / z3 4.8.12 (re-deciding)", "native oracle: the real hub_sync talking to the real serve() loop in a child process over a pipe"]
@@ -374,10 +491,23 @@ def run(R, tier, seed):
             R.add("C13/native-end-to-end", "holds", queries=0, solver_s=0.0, detail=r["detail"] + " (dev+release); validation, not the deciding step")
     except Inconclusive as e:
         R.add("C13/native-end-to-end", "inconclusive", detail=str(e)[:400])
+    try:
+        t = stale_listing_witness(R)
+        if t["confirmed"]:
+            R.add("C13/native-stale-listing", "violated", confirmed=True, replay_path=t["replay_path"], key=t["key"], detail=t["detail"])
+        else:
+            R.add("C13/native-stale-listing", "holds", queries=0, solver_s=0.0, detail=t["detail"] + " (the real binaries; validation, ONE interleaving)")
+    except Exception as e:  # noqa: BLE001
+        R.add("C13/native-stale-listing", "inconclusive", detail=str(e)[:300])
 
 
 def replay(path):
     case = json.load(open(path))["case"]
+    if case.get("fn") == "hub_sync_stale_listing":
+        for prof in ("dev", "release"):
+            r = stale_listing_case(prof)
+            print(prof, json.dumps(r), "=>", judge_stale(r))
+        return 0
     case.pop("observed", None)
     case.pop("deviation", None)
     out = {p: hubnative.run_cases([case], p)[0] for p in ("dev", "release")}
